@@ -124,6 +124,9 @@ structure DAcc where
   corr : Option String := none
   spec : List String := []
   idx : Nat := 0
+  /-- what clients were told in DHCPACKs: (client as RFC 2131 names it — identifier option, else hardware address —,
+      address, instant until which it may use it) -/
+  acked : List (List Nat × Nat × Nat) := []
 
 def optsBlob (o : DhcpWire.Opts) : List Nat := DhcpWire.serOptions o
 
@@ -214,6 +217,16 @@ def stepD (cfg : Cfg) (acc : DAcc) (op : DOp) (res : DRes) (rowsAfter : Store) :
                  acc.implRows.any (fun r => r.addr == a && r.client == clientId pkt && r.expiry > acc.now)
               then { acc with spec := acc.spec ++ ["unsat:C09.keeps_named_own_lease:told-a-different-address"] } else acc
             | none => acc
+          -- C01 oracle, on the replies alone: a DHCPACK must not give `x` to this client while another client was told,
+          -- in an earlier DHCPACK of this history, that it may use `x` until a later instant
+          let toldL := match lookupOpt m.options 51 with
+            | some [a, b, c', d] => DhcpWire.be32 a b c' d
+            | _ => 0
+          let isAck := lookupOpt m.options 53 == some [5]
+          let me := clientId pkt
+          let acc := if isAck && acc.acked.any (fun (c', x', e') => x' == x && c' != me && decide (e' > acc.now))
+            then { acc with spec := acc.spec ++ ["unsat:C01.no_double_lease:acked-while-another-client-holds-it"] } else acc
+          let acc := if isAck then { acc with acked := (me, x, acc.now + toldL) :: acc.acked.filter (fun (c', x', _) => !(c' == me && x' == x)) } else acc
           -- candidates: allowed outcomes on x; pick the one reproducing the implementation's table
           let cands := (allowed acc.rows acc.now c rq pool).filterMap fun o =>
             match o with
